@@ -39,7 +39,7 @@ def replay(path):
         groups = ['core', 'io', 'conv', 'thr']
         thr = label.endswith(':thr')
         exe, failed = build.build_world('threads' if thr else 'hist', 'thr-rel' if thr else 'rel-plain',
-                                        ['core', 'thr'] if thr else ['core', 'io', 'conv'], thorough=True)
+                                        ['core', 'io', 'thr'] if thr else ['core', 'io', 'conv'], thorough=True)
         if label in failed:
             print('REPLAY VIOL key=compile:%s' % label)
             sys.stdout.write('\n'.join([l for l in failed[label].splitlines() if 'error' in l][:8]) + '\n')
@@ -71,7 +71,7 @@ def replay(path):
     elif world == 'threads':
         from . import threads_check
         bld = bld or 'thr-rel'
-        exe, failed = build.build_world('threads', bld, ['core', 'thr'], thorough=True)
+        exe, failed = build.build_world('threads', bld, ['core', 'io', 'thr'], thorough=True)
         rp = threads_check.ThrReplayer(exe, ','.join(sorted(failed)), STACK_IDS)
     elif world == 'hist-range':
         from . import hist_check
